@@ -3,7 +3,7 @@
 Each directory gets: patch.diff, the demonstration, demo_how.txt, meta.json (property, summary, needs, what was run)."""
 import json, os, shutil, glob, re
 rows = []
-for d in sorted(glob.glob("/tmp/seed/C??.out/[A-F]")):
+for d in sorted(glob.glob("/tmp/seed/C??.out/[A-G]")):
     pid = d.split("/")[3][:3]; v = d[-1]
     cf = f"/tmp/seed/confirm_{pid}{v}.log"
     try: conf = json.load(open(cf))
